@@ -23,6 +23,9 @@ run_one() {
   obl=""
   for p in $list; do
     o=$(/verif/bin/sidecheck -property $p -dir $d/repo -verif $d/verif 2>&1)
+    if ! echo "$o" | grep -q ' tier='; then
+      echo "CHECKER ERROR on $name ($p): $(echo "$o" | head -2 | tr '\n' ' ' | cut -c1-160)" >&2
+    fi
     if echo "$o" | grep -q '^VIOLATION'; then
       det="$det\"$p\","
       if [ "$p" = "$own" ]; then obl=$(echo "$o" | grep -E '^(VIOLATED|UNDECIDED)' | sed 's/ config=.*//' | awk '{print $2}' | sort -u | head -6 | tr '\n' ' '); fi
